@@ -57,7 +57,7 @@ type sendSpec struct {
 }
 
 type phase2Spec struct {
-	Kind string `json:"kind"` // reply | unsolicited
+	Kind string `json:"kind"` // reply | unsolicited | hairpin
 	Obs  int    `json:"obs"`  // which phase-1 observation (mod)
 	Alt  int    `json:"alt"`  // unsolicited: which other socket on the observer's network (mod)
 }
@@ -69,12 +69,25 @@ type faultSpec struct {
 	ForNs   int64  `json:"forNs"`
 }
 
+// rebindSpec: socket #Sock is closed while traffic flows and (optionally) a new socket is
+// bound to the same address afterwards.
+type rebindSpec struct {
+	Sock   int   `json:"sock"`
+	AtNs   int64 `json:"atNs"`
+	GapNs  int64 `json:"gapNs"`
+	Rebind bool  `json:"rebind"`
+}
+
 type scenario struct {
 	Routers []routerSpec `json:"routers"`
 	Hosts   []hostSpec   `json:"hosts"`
 	Sends   []sendSpec   `json:"sends"`
 	Phase2  []phase2Spec `json:"phase2"`
 	Faults  []faultSpec  `json:"faults"`
+	// Lazy: nobody reads socket #*Lazy before phase 1 has settled (its receive queue,
+	// capacity 1024, fills up)
+	Lazy   *int        `json:"lazy,omitempty"`
+	Rebind *rebindSpec `json:"rebind,omitempty"`
 }
 
 func gen(r *harn.Rng, tier string) interface{} {
@@ -190,8 +203,32 @@ func gen(r *harn.Rng, tier string) interface{} {
 		k := "reply"
 		if r.Bool(0.5) {
 			k = "unsolicited"
+		} else if r.Bool(0.3) {
+			k = "hairpin"
 		}
 		sc.Phase2 = append(sc.Phase2, phase2Spec{Kind: k, Obs: r.Intn(64), Alt: r.Intn(8)})
+	}
+	if !faulty && r.Bool(0.04) {
+		// flood towards a socket nobody reads: 1000..1100 datagrams from one or two senders
+		to := r.Intn(len(socks))
+		sc.Lazy = &to
+		total := r.Pick(1000, 1023, 1024, 1025, 1100)
+		var srcs []int
+		for try := 0; try < 20 && len(srcs) < 2; try++ {
+			f := r.Intn(len(socks))
+			if f != to && isUp(sc.Hosts[socks[f].host].Router, sc.Hosts[socks[to].host].Router) && sc.Hosts[socks[f].host].Socks[socks[f].idx].Connect < 0 {
+				srcs = append(srcs, f)
+			}
+		}
+		if len(srcs) == 0 {
+			sc.Lazy = nil
+		} else {
+			for i := 0; i < total; i++ {
+				sc.Sends = append(sc.Sends, sendSpec{From: srcs[i%len(srcs)], Kind: "sock", To: to, Len: r.Pick(12, 12, 12, 40), GapNs: 0})
+			}
+		}
+	} else if r.Bool(0.12) {
+		sc.Rebind = &rebindSpec{Sock: r.Intn(len(socks)), AtNs: int64(r.Pick(0, 1000, 100000, 1000000, 3000000)), GapNs: int64(r.Pick(0, 1000, 1000000)), Rebind: r.Bool(0.7)}
 	}
 	if faulty && r.Bool(0.5) {
 		for i, n := 0, r.Range(1, 2); i < n; i++ {
@@ -232,6 +269,10 @@ type sockT struct {
 	remote string // connected: remote address
 	inbox  []rcv
 	h      *simrt.Handle
+	closed bool   // closed by the rebind worker
+	succ   *sockT // the socket bound to the same address afterwards
+	lazy   bool   // not read before phase 1 has settled
+	closeStart, closeEnd, rebound uint64 // stamps of the rebind worker
 }
 
 type rcv struct {
@@ -252,8 +293,10 @@ type sentT struct {
 	uncertain bool   // the model leaves the outcome open
 	noLossOK  bool   // loss is acceptable (fault window / bounded queue / dropping filter)
 	chain     []*routerT // NATs crossed on the way up (inner to outer)
-	ret       uint64
+	call, ret uint64
 	phase2    bool
+	alt       *sockT // a second admissible receiver (socket re-bound to the same address)
+	mayOnly   bool   // may be lost, but if it arrives then at expect (or alt) only
 	wantSrc   string // expected source as seen by the receiver ("" = not fixed)
 }
 
@@ -321,7 +364,7 @@ func (w *world) demux(h *hostT, ip string, port int, src string) *sockT {
 	}
 	var hit *sockT
 	for _, s := range w.socks {
-		if s.host != h || s.port != port {
+		if s.host != h || s.port != port || s.closed {
 			continue
 		}
 		if s.bindIP == "0.0.0.0" || s.bindIP == ip {
@@ -583,8 +626,7 @@ func run(env *simrt.Env, sci interface{}) {
 		env.Infra("Start: %v", err)
 		return
 	}
-	for _, s := range w.socks {
-		s := s
+	startReader := func(s *sockT) {
 		s.h = env.Go(fmt.Sprintf("reader%d", s.gi), func() {
 			buf := make([]byte, 2000)
 			for {
@@ -595,6 +637,14 @@ func run(env *simrt.Env, sci interface{}) {
 				s.inbox = append(s.inbox, rcv{payload: append([]byte(nil), buf[:n]...), src: from.String(), stamp: env.Stamp()})
 			}
 		})
+	}
+	if sc.Lazy != nil {
+		w.socks[*sc.Lazy%len(w.socks)].lazy = true
+	}
+	for _, s := range w.socks {
+		if !s.lazy {
+			startReader(s)
+		}
 	}
 	settle := func() {
 		// A router that was stalled inside its forwarding loop sleeps for as long as the
@@ -658,6 +708,7 @@ func run(env *simrt.Env, sci interface{}) {
 			for _, st := range plan[g] {
 				env.Sleep(time.Duration(gaps[st]))
 				cp := append([]byte(nil), st.payload...)
+				st.call = env.Stamp()
 				_, err := st.from.pc.WriteTo(cp, st.dstAddr)
 				for j := range cp {
 					cp[j] = 0xEE // the caller may overwrite its buffer as soon as the write returns
@@ -690,11 +741,66 @@ func run(env *simrt.Env, sci interface{}) {
 			}
 		}))
 	}
+	var rb *sockT
+	if sc.Rebind != nil {
+		x := w.socks[sc.Rebind.Sock%len(w.socks)]
+		if x.remote == "" && !x.lazy {
+			rb = x
+			faultHs = append(faultHs, env.Go("rebind", func() {
+				env.Sleep(time.Duration(sc.Rebind.AtNs))
+				x.closeStart = env.Stamp()
+				_ = x.pc.Close()
+				x.closeEnd = env.Stamp()
+				env.Fault("socket-close")
+				if !sc.Rebind.Rebind {
+					return
+				}
+				env.Sleep(time.Duration(sc.Rebind.GapNs))
+				c, err := x.host.n.ListenUDP("udp", &net.UDPAddr{IP: net.ParseIP(x.bindIP), Port: x.port})
+				if err != nil {
+					env.Fail("C01/rebind-refused", "socket %s was closed, binding its address again failed: %v", x.desc(), err)
+					return
+				}
+				n := &sockT{gi: len(w.socks), host: x.host, spec: sockSpec{IPIdx: x.spec.IPIdx, Connect: -1}, bindIP: x.bindIP, port: x.port, pc: c}
+				n.rebound = env.Stamp()
+				x.succ = n
+				startReader(n)
+				env.Fault("socket-rebind")
+			}))
+		}
+	}
 	env.Join(hs...)
 	env.Join(faultHs...)
 	settle()
 	if env.Failed() {
 		return
+	}
+	if rb != nil {
+		rb.closed = true
+		if rb.succ != nil {
+			w.socks = append(w.socks, rb.succ)
+		}
+		// verdicts of the datagrams the model routed to the closed socket
+		for _, st := range w.sents {
+			if st.expect != rb {
+				continue
+			}
+			n := rb.succ
+			switch {
+			case st.ret != 0 && n != nil && st.call > n.rebound:
+				st.expect = n // written after the new socket existed: it is the open socket now
+			case st.ret != 0 && n == nil && st.call > rb.closeEnd:
+				st.expect = nil // written after the close returned and nobody re-bound: nobody
+			default:
+				st.alt, st.mayOnly = n, true // in flight around the close: old, new or nobody
+			}
+		}
+	}
+	for _, s := range w.socks {
+		if s.lazy {
+			startReader(s)
+			settle()
+		}
 	}
 	hadStop := len(w.faultWin) > 0
 	if !w.check(false, hadStop) {
@@ -727,12 +833,19 @@ func run(env *simrt.Env, sci interface{}) {
 		if err != nil {
 			continue
 		}
-		sender := o.at
-		if p.Kind == "unsolicited" {
-			// another socket on the observer's network
+		cur := func(s *sockT) *sockT { // the open socket at s's address now
+			if s != nil && s.closed {
+				return s.succ
+			}
+			return s
+		}
+		sender := cur(o.at)
+		if p.Kind == "hairpin" {
+			// a socket behind the same NAT as the observed sender (possibly that sender itself)
+			// writes to the observed external address: up through the NATs, back down through them
 			var cands []*sockT
 			for _, s := range w.socks {
-				if s != o.at && s.host.spec.Router == o.at.host.spec.Router && s.remote == "" {
+				if !s.closed && s.host.spec.Router == o.st.from.host.spec.Router && s.remote == "" && s.bindIP != "127.0.0.1" {
 					cands = append(cands, s)
 				}
 			}
@@ -741,7 +854,20 @@ func run(env *simrt.Env, sci interface{}) {
 			}
 			sender = cands[p.Alt%len(cands)]
 		}
-		if sender.remote != "" {
+		if p.Kind == "unsolicited" {
+			// another socket on the observer's network
+			var cands []*sockT
+			for _, s := range w.socks {
+				if !s.closed && s != o.at && s.host.spec.Router == o.at.host.spec.Router && s.remote == "" {
+					cands = append(cands, s)
+				}
+			}
+			if len(cands) == 0 {
+				continue
+			}
+			sender = cands[p.Alt%len(cands)]
+		}
+		if sender == nil || sender.remote != "" {
 			continue
 		}
 		st := &sentT{tag: w.nextTag, from: sender, dst: x.String(), dstAddr: x, kind: p.Kind, phase2: true}
@@ -772,10 +898,29 @@ func run(env *simrt.Env, sci interface{}) {
 			}
 		}
 		st.wantSrc = src.String()
+		if p.Kind == "hairpin" {
+			// The datagram reaches the outermost NAT from outside with the sender's own translated
+			// address as source. Whatever the filters decide, it may surface at the owner of the
+			// mapping only; where every NAPT level filters endpoint-independently the rules admit it.
+			admitted = true
+			st.chain = orig.chain
+			st.wantSrc = "?"
+			for _, c := range orig.chain {
+				if !c.spec.OneToOne && c.spec.Filtering != 0 {
+					st.mayOnly = true
+				}
+			}
+			if orig.from.remote != "" {
+				st.mayOnly = true
+			}
+		}
 		if admitted {
-			st.expect = orig.from
-			if orig.from.remote != "" && orig.from.remote != src.String() {
+			st.expect = cur(orig.from)
+			if orig.from.remote != "" && orig.from.remote != src.String() && p.Kind != "hairpin" {
 				st.expect = nil // connected sockets discard datagrams from other sources
+			}
+			if st.expect == nil {
+				st.mayOnly = false
 			}
 		}
 		if hadStop || w.lossy {
@@ -802,7 +947,9 @@ func run(env *simrt.Env, sci interface{}) {
 	}
 	_ = w.routers[0].r.Stop()
 	for _, s := range w.socks {
-		env.Join(s.h)
+		if s.h != nil {
+			env.Join(s.h)
+		}
 	}
 }
 
@@ -821,7 +968,7 @@ func (w *world) check(final, hadStop bool) bool {
 				// short datagram: must equal some short payload sent towards this socket
 				found := false
 				for _, st := range w.sents {
-					if len(st.payload) < 12 && bytes.Equal(st.payload, it.payload) && (st.expect == s || st.uncertain) {
+					if len(st.payload) < 12 && bytes.Equal(st.payload, it.payload) && (st.expect == s || st.uncertain || (st.alt != nil && st.alt == s)) {
 						found = true
 					}
 				}
@@ -845,7 +992,7 @@ func (w *world) check(final, hadStop bool) bool {
 				return false
 			}
 			seen[t] = s
-			if !st.uncertain && st.expect != s {
+			if !st.uncertain && st.expect != s && (st.alt == nil || st.alt != s) {
 				exp := "nobody (the routing and NAT rules do not admit it)"
 				if st.expect != nil {
 					exp = "socket " + st.expect.desc()
@@ -858,6 +1005,22 @@ func (w *world) check(final, hadStop bool) bool {
 				if st.wantSrc != "" && st.wantSrc != "?" && it.src != st.wantSrc {
 					env.Fail("C01/wrong-source", "datagram %d (%s -> %s) shows source %s at the receiver, want %s", t, st.from.desc(), st.dst, it.src, st.wantSrc)
 					return false
+				}
+				if len(st.chain) > 0 && st.kind == "hairpin" {
+					outer := st.chain[len(st.chain)-1]
+					ua, err := net.ResolveUDPAddr("udp", it.src)
+					okIP := false
+					if err == nil {
+						for _, a := range outer.wanIPs {
+							if a == ua.IP.String() {
+								okIP = true
+							}
+						}
+					}
+					if !okIP || ua.Port < 1 || ua.Port > 65535 {
+						env.Fail("C01/wrong-source", "hairpinned datagram %d (%s -> %s) crossed NAT router #%d outbound; the receiver saw source %q, want an address of that router %v", t, st.from.desc(), st.dst, outer.idx, it.src, outer.wanIPs)
+						return false
+					}
 				}
 				if len(st.chain) > 0 && !st.phase2 {
 					outer := st.chain[len(st.chain)-1]
@@ -898,6 +1061,67 @@ func (w *world) check(final, hadStop bool) bool {
 			}
 		}
 	}
+	// a socket nobody read during phase 1: its queue (capacity 1024) was never drained, so per
+	// sender what arrived is a prefix of what was sent, and nothing is lost below capacity
+	for _, s := range w.socks {
+		if !s.lazy || w.lossy || hadStop {
+			continue
+		}
+		certain := 0
+		got := map[uint32]bool{}
+		for _, it := range s.inbox {
+			if t, ok := tagOf(it.payload); ok {
+				got[t] = true
+			}
+		}
+		missing := map[string]*sentT{}
+		others, gotCertain := 0, 0
+		for _, st := range w.sents {
+			if st.phase2 {
+				continue
+			}
+			if st.uncertain || st.expect != s || st.ret == 0 || len(st.payload) < 12 {
+				// datagrams that may occupy a slot of the queue without counting as admitted: open
+				// verdicts, short ones, and those a connected socket discards when it reads
+				addressed := st.dstAddr.Port == s.port && (st.dstAddr.IP.IsLoopback() && st.from.host == s.host)
+				for _, a := range s.host.ips {
+					if st.dstAddr.Port == s.port && a == st.dstAddr.IP.String() {
+						addressed = true
+					}
+				}
+				if st.uncertain || st.expect == s || addressed {
+					others++
+				}
+				continue
+			}
+			certain++
+			if got[st.tag] {
+				gotCertain++
+			}
+			k := fmt.Sprintf("%d@%s", st.from.gi, st.dst)
+			if !got[st.tag] {
+				if missing[k] == nil {
+					missing[k] = st
+				}
+			} else if m := missing[k]; m != nil {
+				env.Fail("C01/lost", "socket %s was not read while %d datagrams were sent to it: datagram seq %d of socket #%d is missing although the later seq %d arrived (its queue was never drained, so it cannot have been full for the earlier and free for the later one)", s.desc(), certain, m.seq, st.from.gi, st.seq)
+				return false
+			}
+		}
+		want := certain
+		if want > 1024-others {
+			want = 1024 - others
+		}
+		if gotCertain < want {
+			env.Fail("C01/lost", "socket %s was not read while %d admitted datagrams (and at most %d others) were sent to it; only %d of the admitted ones were queued although its receive queue holds 1024", s.desc(), certain, others, gotCertain)
+			return false
+		}
+		if certain > 1024 {
+			env.Probe("receive-queue-overflow")
+		} else if certain >= 1000 {
+			env.Probe("receive-queue-nearly-full")
+		}
+	}
 	// no loss (only where the property promises it)
 	for _, st := range w.sents {
 		if st.uncertain || st.expect == nil || st.ret == 0 || len(st.payload) < 12 {
@@ -907,7 +1131,7 @@ func (w *world) check(final, hadStop bool) bool {
 			env.Probe("delivered")
 			continue
 		}
-		if w.lossy || st.noLossOK {
+		if w.lossy || st.noLossOK || st.mayOnly || (st.expect.lazy && !st.phase2) {
 			continue
 		}
 		inWin := false
@@ -950,6 +1174,16 @@ func shrinkSc(sci interface{}) []interface{} {
 	if len(sc.Faults) > 0 {
 		c := *sc
 		c.Faults = nil
+		out = append(out, &c)
+	}
+	if sc.Rebind != nil {
+		c := *sc
+		c.Rebind = nil
+		out = append(out, &c)
+	}
+	if sc.Lazy != nil {
+		c := *sc
+		c.Lazy = nil
 		out = append(out, &c)
 	}
 	for i := range sc.Routers {
